@@ -2,11 +2,13 @@ import BridgeVerif.Driver.Util
 import BridgeVerif.Model.Score
 import BridgeVerif.Spec.Scoring
 import BridgeVerif.Driver.Auction
+import BridgeVerif.Driver.Play
 /-! The line-protocol driver: one op per line in, one canonical line out. -/
 namespace Bridge.Driver
 
 structure DState where
   auction : Option AState := none
+  play : Option PlayMode := none
 
 def scoreOps (t : List String) : Option String :=
   match t with
@@ -33,6 +35,9 @@ def step (s : DState) (line : String) : DState × String :=
     else if op.startsWith "A." then
       let (a, o) := auctionOps s.auction t
       ({ s with auction := a }, o)
+    else if op.startsWith "P." then
+      let (a, o) := playOps s.play t
+      ({ s with play := a }, o)
     else (s, "bad-op")
 
 partial def loop (h : IO.FS.Stream) (out : IO.FS.Stream) (s : DState) : IO Unit := do
